@@ -254,7 +254,8 @@ def pollExpect (rid : Nat) : M cfg ExpectRes := do
 def eagerPoll (fuel : Nat) : M cfg PUnit := do
   let s ← st
   match s.st with
-  | .expect r =>
+  | .expect rq =>
+    let r := rq.rid
     let res ← pollExpect r
     let _ ← fire (.expectPoll res)
     match res with
@@ -351,7 +352,8 @@ def pollResponse : Nat → M cfg Bool
         if !(← pollRequest fuel) then return false
         pollResponse fuel
       | _ => afterHead; pollResponse fuel
-    | .expect r =>
+    | .expect rq =>
+      let r := rq.rid
       let res ← pollExpect r
       let _ ← fire (.expectPoll res)
       match res with
